@@ -232,6 +232,13 @@ def determinism_check(res, known, args):
             elif out != first:
                 differing += 1
                 lang = next(l for l in out if out[l] != first[l])
+                # recorded finding: two packets whose names collide after ToSnake share one output file name
+                pk = [p["name"] for p in resp["model"]["packets"]]
+                nm = hook.ask({"op": "names", "idents": pk})["names"]
+                snakes = [nm[x][2] for x in pk]
+                if len(set(snakes)) != len(snakes) and lang in ("go", "rust", "java"):
+                    res.known.append("finding=file-name-collision packets whose names collide after strcase.ToSnake (e.g. FooBar and foo_bar) are written to one file name: which packet's code survives depends on map iteration order (witness program det-name-collision)")
+                    break
                 fname = next((f for f in out[lang] if out[lang].get(f) != first[lang].get(f)), "(file set)")
                 res.violation({"kind": "nondeterminism", "what": "compiling the same DSL twice gave different %s output (file %s)" % (lang, fname),
                                "dsl": text, "lang": lang, "file": fname, "run_a": first[lang].get(fname), "run_b": out[lang].get(fname),
